@@ -62,6 +62,37 @@ CHECKS["C08"] = (
     "Whether a disabled rule occupies a slot of First/Last/Highest/Lowest is not asserted (both readings accepted).",
     "§5 C08")
 
+CHECKS["C01"] = (
+    "Hypothesis-generated engines and input rows vs a reference interpreter of the documented pipeline working on the generated abstract syntax",
+    "Generated engines of all profiles (Mamdani/Larsen, Takagi-Sugeno, Tsukamoto, inverse Tsukamoto, hybrid; every "
+    "registered norm, hedge, defuzzifier; weights, disabled rules/blocks/variables, two chained rule blocks, output "
+    "variables in antecedents, nested antecedents, a minority of non-General activation methods) processed row after row "
+    "with floats (interior, bounds, breakpoints, out of range, +-inf, NaN); rule degrees, triggered flags, fuzzy outputs "
+    "and output values must equal the reference interpreter's.",
+    "Leaf memberships from fresh term objects (C03 decides those); fragile-case and tie-set rules of DESIGN §4; open "
+    "known finding KF-C01-hedge-leak matched by the cumulative-hedge model.", "§5 C01")
+CHECKS["C02"] = (
+    "Hypothesis-generated engines and batches: differential test of array processing against row-by-row float processing",
+    "The same generated spec is built twice; N rows (incl. NaN/inf rows, planted NaN rows after valid ones) are given "
+    "as per-variable arrays or through engine.input_values (2-D, 1-D, 0-D) and processed once, versus row-by-row float "
+    "processing from the same restarted state; outputs, fuzzy_value strings, activation degrees and exception "
+    "behaviour must agree row for row, including lock-previous/default/lock-range carry-over.",
+    "The scalar path is the reference (a defect common to both paths is C01's business).", "§5 C02")
+CHECKS["C09"] = (
+    "Hypothesis-generated aggregated fuzzy sets vs reference defuzzifiers computed on the pointwise-sampled set + laws",
+    "Generated sets of 0-5 activated shape terms (any implication/aggregation, scalar or batch degrees, arbitrary finite "
+    "ranges, resolutions 1..1000): the five integral defuzzifiers must return the statement's defined point of the "
+    "sampled set; range, SOM<=MOM<=LOM, NaN iff empty, centroid translation, batch == per-set.",
+    "The sampled membership vector is taken pointwise from the library (C03/C04 decide it).", "§5 C09")
+CHECKS["C10"] = (
+    "Hypothesis-generated fuzzy outputs vs reference grouping and weighted average/sum + zero-degree and convexity relations",
+    "Generated activations (0-6, with repetitions) over Constant/Linear/Function, monotonic and non-monotonic terms, "
+    "every aggregation operator or none, both defuzzifiers x {Automatic, TakagiSugeno, Tsukamoto}, scalar and batch: "
+    "grouped_terms/activation_degree, the defuzzified value, rejection of mixed kinds, NaN iff empty/zero weights, "
+    "zero-degree activations never change the result, weighted average of constants is convex.",
+    "Tsukamoto z from the documented inverse; degrees outside (0,height) for Tsukamoto are undefined and skipped.",
+    "§5 C10")
+
 NOT_APPLICABLE = {}
 
 
